@@ -156,6 +156,23 @@ def make_scripted_class():
                         except Exception:
                             pass
                         self.probed = getattr(self, "probed", 0) + 1
+            if self.sd.get("resubmit_p") and plain and getattr(self, "sim", None) is not None:
+                # re-planning one part while RE-SUBMITTING the standing plan for the rest: the rows of those stations are numpy
+                # views of the simulator's own public pilot_signals matrix (what the plan holds at the moment of submission)
+                r_ = random.Random(f"{self.sd['seed']}:{t}:resubmit")
+                L_ = len(next(iter(plain.values())))
+                P_ = self.sim.pilot_signals
+                ids_ = list(self.sim.network.station_ids)
+                if r_.random() < self.sd["resubmit_p"] and t + L_ <= P_.shape[1]:
+                    sch = {k: (list(v) if not isinstance(v, np.ndarray) else v) for k, v in (sch.items() if isinstance(sch, dict) else plain.items())}
+                    for k_ in list(plain):
+                        if r_.random() < 0.5:
+                            view = P_[ids_.index(k_), t:t + L_]
+                            plain[k_] = [float(x) for x in view]
+                            sch[k_] = view
+                    self.resubmitted = getattr(self, "resubmitted", 0) + 1
+                    self.submitted.append((t, {k: list(v) for k, v in plain.items()}))
+                    return sch
             if self.sd.get("buffered") and plain:
                 # a scheduler that keeps ONE pre-allocated mapping of numpy rows and overwrites the rows in place each period
                 buf = getattr(self, "_buf", None)
@@ -241,6 +258,8 @@ def build_sim(desc, scheduler=None, network=None, shift=0, order=None, cons_orde
     # runs only then
     sim = Simulator(net, sch, q, start_of(desc), period=desc["period"], verbose=bool(desc.get("verbose", False)),
                     signals=desc.get("signals"), **simkw)
+    if getattr(sch, "sd", None) is not None:
+        sch.sim = sim  # the user built both: a scheduler may hold its simulator (public attributes only)
     if pending_events is not None:
         # the simulator was built on an empty queue; the very queue object it was given is filled now
         half = len(pending_events) // 2
